@@ -116,6 +116,8 @@ def answer (recs : List Record) (d : Str) (q : Query) : Val :=
   | "expand_strict", [s] => mode true false .expansion s (expand recs d s)
   | "format_curie", [p, i] => .str (format d p i)
   | "get_record", [p] => (match ownerP recs p with | some r => .recs [r] | none => .none)
+  -- the trie object itself: the longest registered URI prefix of `u` with the canonical prefix of its owner
+  | "trie_lpi", [u] => (match longest recs u with | some kr => .pair kr.1 kr.2.pfx | none => .none)
   | m, _ => .bad s!"no spec for {m}"
 
 /-- the queries `answer` gives a meaning to -/
